@@ -46,6 +46,21 @@ func (x *Exec) newCalleeEnv(st *State, ctr *FuncContract, c *ssa.CallCommon) *En
 			e.pkg = p
 		}
 	}
+	// a function literal: the variables it captured are read through the closure's bindings
+	if mc := x.staticClosure(c); mc != nil {
+		if fn, ok := mc.Fn.(*ssa.Function); ok {
+			for i, fv := range fn.FreeVars {
+				if i >= len(mc.Bindings) {
+					break
+				}
+				bv, ok := st.regs[mc.Bindings[i]]
+				if !ok || !isPointer(bv.T) {
+					continue
+				}
+				e.vars[fv.Name()] = x.loadNoFacts(st, x.deref(bv))
+			}
+		}
+	}
 	return e
 }
 
